@@ -34,6 +34,18 @@ CLAIMED = {
     design_ref="DESIGN.md section 5 C06",
     note="Trusted: TLC, the recording driver and its rank mapping (Go equality only). Not covered yet: NULLs, negative numbers, non-indexed columns. Trace validation only (SqlModel is not explored as a state space).",
     technique="TLA+ contract spec as oracle; TLC trace validation of recorded SQL executions"),
+ "C03": dict(
+    category="model_checking",
+    text="SqlModel is the oracle (Abort restores the snapshot taken at Begin). Seeded serial histories on tables created through SQL and through the catalog API (skip-list, B-tree, unindexed columns; single- and multi-page heaps): committed work, a transaction of 1-4 statements (inserts, deletes, key-changing / growing / shrinking / relocating updates, repeated changes of one row) rolled back explicitly or because a statement aborted it, then the full probe battery (heap scan, every index by point lookup of every rank and by ordered range scans through the index API, SQL through the planner), committed work reusing the space, and the battery again; TLC validates every recorded answer.",
+    design_ref="DESIGN.md section 5 C03",
+    note="Trusted: TLC, recording driver. Serial histories only; hash and unique skip-list indexes not exercised; B-tree with short keys.",
+    technique="TLA+ contract spec as oracle; TLC trace validation of recorded abort histories with index/heap probe batteries"),
+ "C07": dict(
+    category="model_checking",
+    text="At every quiescent point of the C03-style histories (after committed and rolled-back inserts, deletes, key-changing and relocating updates, duplicate keys) the driver records, for every indexed column, the point lookup of every rank and ordered range scans through the index API together with a heap scan; TLC checks against SqlModel that a lookup returns exactly the rows whose column holds the key and a range scan exactly the in-range rows, each once, in key order.",
+    design_ref="DESIGN.md section 5 C07",
+    note="Trusted: TLC, recording driver. Index kinds: skip list, B-tree; restart agreement is exercised by the C09/C10 batteries.",
+    technique="TLA+ contract spec as oracle; TLC trace validation of index-vs-heap probe batteries"),
 }
 
 NOT_APPLICABLE = {
